@@ -72,7 +72,7 @@ def gen_cases(tier, seed):
                 yield {"id": "%s/symlist/%s/%d" % (mn, carrier, v), "mn": mn, "operand": "1,SYM,2", "expect": exp if exp != "sym" else "symlist", "form": "%s.list.symbol" % mn.lower(), "pre": pre, "post": post, "width": width,
                        "listwrap": True}
         # lists
-        for k in range(3000 if thorough else 300):
+        for k in range(12000 if thorough else 300):
             r = rng(seed, "C05", mn, "list", k)
             ln = r.choice([1, 2, 2, 3, 5, 8, 16, 33, 64])
             bad = r.random() < 0.15
@@ -96,7 +96,7 @@ def gen_cases(tier, seed):
                 yield {"id": "multi/%X/%s/%d" % (org, "-".join(order), j), "mn": mn, "operand": "VAR", "expect": ("%02X" % org if mn == "FCB" else "%04X" % org).lower(),
                        "form": "%s.single.symbol-shared" % mn.lower(), "pre": pre + before, "post": rest}
     # FCC
-    for k in range(6000 if thorough else 700):
+    for k in range(25000 if thorough else 700):
         r = rng(seed, "C05", "fcc", k)
         delim = r.choice(DELIMS)
         ln = r.choice([0, 1, 2, 3, 5, 10, 20, 40, 80, 128, 200, 255])
